@@ -263,12 +263,16 @@ def corruptions(rng, g):
         pi = rng.randrange(len(scopes[si]))
         sc = [list(s) for s in scopes]
         sc[si].insert(rng.randrange(len(sc[si]) + 1), scopes[si][pi])
-        yield ("dup-pair", b"psbt\xff" + b"".join(b"".join(kv(k, v) for k, v in s) + b"\x00" for s in sc), True)
+        # the kind says where the duplicated key lives (global / in / out) and its type byte: the memory-saving reader
+        # modes skip some input fields unread, see props/c04.py `skipped_in_mode`
+        where = "global" if si == 0 else ("in" if si <= len(g["tx"].vin) else "out")
+        tag = ":%s:%02x" % (where, scopes[si][pi][0][0])
+        yield ("dup-pair" + tag, b"psbt\xff" + b"".join(b"".join(kv(k, v) for k, v in s) + b"\x00" for s in sc), True)
         # same key, different value
         sc = [list(s) for s in scopes]
         k0, v0 = scopes[si][pi]
         sc[si].append((k0, v0 + b"\x01" if len(v0) < 8 else v0[:-1]))
-        yield ("dup-key", b"psbt\xff" + b"".join(b"".join(kv(k, v) for k, v in s) + b"\x00" for s in sc), True)
+        yield ("dup-key" + tag, b"psbt\xff" + b"".join(b"".join(kv(k, v) for k, v in s) + b"\x00" for s in sc), True)
     # drop a separator
     for _ in range(2):
         si = rng.randrange(len(scopes))
